@@ -106,6 +106,11 @@ def cases(tier):
     out = []
     for start in range(0, len(polys), PACK):
         out.append({'part': 'lattice', 'polygons': [[list(v) for v in p] for p in polys[start:start + PACK]]})
+    # the same polygons at a metre-scale cell size in degrees (2^-17 of a lattice unit) and at a very large one
+    step = 1 if tier == 'thorough' else 3
+    for scale in (2.0 ** -17, 2.0 ** 12):
+        for start in range(0, len(polys), PACK * step):
+            out.append({'part': 'lattice', 'scale': scale, 'polygons': [[list(v) for v in p] for p in polys[start:start + PACK]]})
     for spec in builders.family_specs(tier):
         if spec['family'] == 'cf2d' and spec.get('bounds') == 'derived':
             continue
@@ -119,6 +124,12 @@ def cases(tier):
                                                    'darts': [[1, 2], [2, 1], [2, 2]]}})
             out.append({'part': 'family', 'spec': {'family': family, 'ny': 2, 'nx': 4, 'geometry': 'rect', 'holes': holes,
                                                    'darts': [[0, 3], [1, 1]]}})
+    # more cells than a narrow integer can count, but only a handful of vertices
+    out.append({'part': 'family', 'spec': {'family': 'cf2d', 'ny': 24, 'nx': 24, 'geometry': 'skew', 'holes': 'mostlyland', 'nt': 1, 'nk': 1}})
+    out.append({'part': 'family', 'spec': {'family': 'shoc_simple', 'ny': 17, 'nx': 16, 'holes': 'mostlyland', 'darts': [[16, 15], [15, 13]],
+                                           'nt': 1, 'nk': 1}})
+    if tier == 'thorough':
+        out.append({'part': 'family', 'spec': {'family': 'cf2d', 'ny': 260, 'nx': 255, 'holes': 'mostlyland', 'nt': 1, 'nk': 1}})
     out.append({'part': 'family', 'spec': {'family': 'ugrid', 'mesh': 'M8', 'bowtie': 1}})
     out.append({'part': 'family', 'spec': {'family': 'ugrid', 'mesh': 'M8', 'bowtie': 1, 'start_index': 1, 'fill': 'fillattr'}})
     return out
@@ -130,8 +141,9 @@ def run_case(case):
         nodes, faces = [], []
         for k, poly in enumerate(case['polygons']):
             offset = 5 * k
+            scale = case.get('scale', 1.0)
             faces.append(list(range(len(nodes), len(nodes) + len(poly))))
-            nodes.extend((float(x + offset), float(y)) for x, y in poly)
+            nodes.extend((float(x + offset) * scale, float(y) * scale) for x, y in poly)
             if has_reflex_or_collinear([tuple(v) for v in poly]):
                 rec.nontrivial(k)
         spec = {'family': 'ugrid', 'mesh': 'lattice-pack', 'nodes': nodes, 'faces': faces, 'nt': 1, 'nk': 1}
